@@ -43,7 +43,7 @@ def run(prop, tier, seed, only=None):
     names = [n for n, h in H.items() if h["prop"] == prop and (tier == "thorough" or h["tier"] == "quick")]
     if only:
         names = [n for n in names if n in only]
-    to = 420 if tier == "quick" else 1500
+    to = 600 if tier == "quick" else 2400
     jobs = [dict(harness="h_gen::" + n, timeout=to, playback=True, mem_gb=16) for n in names]
     results = kani.run_many(jobs, nslots=8)
     res.functions = ["packing::MCOptimiser::optimise_state (src/optimisation.rs, generic over State, instantiated with the scripted mock)",
